@@ -20,7 +20,7 @@ DECIDING = ["C01.rate_matrix"]
 RULE = ("random SqRA systems: n in 2..12, symmetric Erdos-Renyi pattern (p in [0,0.7], forced isolated rows, disconnected blocks), "
         "S,h,V log-uniform over 4 decades, energies N(0,sigma) with sigma in {0.1,10,300,2000} kJ/mol (pairs beyond the 500 kJ/mol cap "
         "occur), T in [50,1000] K, D over 4 decades, both storage forms (canonical csr / row-major coo); thorough adds all 64 "
-        "symmetric patterns for n=4 in both forms. Each system is called 3 times (base, energies shifted, D scaled), half of them also repeatedly on one SQRA object with other D, T in between. Non-trivial = "
+        "symmetric patterns for n=4 in both forms; volumes also as float32 / int64 / int32 arrays, energies as float32 / int64; rings and periodic lattices with 500..65536 (thorough 262144) cells whose number of stored pairs is a power of two or of ten (judged without dense matrices). Each system is called 3 times (base, energies shifted, D scaled), half of them also repeatedly on one SQRA object with other D, T in between. Non-trivial = "
         ">=1 off-diagonal entry and >=1 adjacent pair with E_i != E_j; distinct by digest of the generated system")
 ASSUMPTIONS = ["S and h share one sparsity pattern and stored order (calls where they do not are skipped, counted)",
                "capped exponent kept <= 600 by T >= 50 K so exp() never overflows (outside the documented cap's guarantee)",
@@ -57,6 +57,8 @@ def rate_matrix_is_sqra_formula(self, D, T, result, OLD):
         if np.any(rs == cs) or len(set(zip(rs.tolist(), cs.tolist()))) != len(rs):
             REC.skip(mon, "diagonal or duplicate entries in the inputs (outside the property)")
             return True
+        if n > DENSE_LIMIT and issparse(result):
+            return _judge_sparse(self, D, T, result, OLD, E, V, rs, cs, S, H)
         problems = []
         if not issparse(result) or result.format != "csr":
             problems.append(f"result is not csr: {type(result).__name__}")
@@ -113,6 +115,67 @@ def rate_matrix_is_sqra_formula(self, D, T, result, OLD):
     return True
 
 
+DENSE_LIMIT = 400
+
+
+def _judge_sparse(self, D, T, result, OLD, E, V, rs, cs, S, H):
+    """the same clauses without dense n x n arrays (rings and lattices with 1e3..2e5 cells)"""
+    from scipy.sparse import csr_array
+    mon = "C01.rate_matrix"
+    n = len(V)
+    problems = []
+    if result.format != "csr":
+        problems.append(f"result is not csr: {result.format}")
+    if result.shape != (n, n):
+        REC.fail(mon, {"problems": [f"shape {result.shape} != {(n, n)}"]})
+        return True
+    dE = E[rs] - E[cs]
+    val = D * S / (H * V[rs]) * np.exp(np.minimum(dE, CAP) * 1000.0 / (2.0 * R_GAS * T))
+    Eoff = csr_array((val, (rs, cs)), shape=(n, n))
+    R = csr_array(result, dtype=float)
+    diag = R.diagonal()
+    Roff = R.tocoo()
+    keep = Roff.row != Roff.col
+    Roff = csr_array((Roff.data[keep], (Roff.row[keep], Roff.col[keep])), shape=(n, n))
+    if not np.all(np.isfinite(R.data)):
+        problems.append("non-finite entries")
+    else:
+        excess = (abs(Roff - Eoff) - 1e-9 * abs(Eoff)).tocoo()
+        if excess.nnz and excess.data.max() > 1e-300:
+            k = int(np.argmax(excess.data))
+            i, j = int(excess.row[k]), int(excess.col[k])
+            problems.append({"entry": [i, j], "observed": float(Roff[[i], [j]][0]), "formula": float(Eoff[[i], [j]][0]), "E_i-E_j": E[i] - E[j]})
+        else:
+            offsum = np.asarray(Eoff.sum(axis=1)).ravel()
+            if not np.allclose(diag, -offsum, rtol=1e-9, atol=0):
+                k = int(np.argmax(np.abs(diag + offsum)))
+                problems.append({"diagonal_row": k, "observed": diag[k], "minus_offdiag_sum": -offsum[k]})
+            rsum = np.asarray(R.sum(axis=1)).ravel()
+            if np.any(np.abs(rsum) > 1e-9 * offsum + 1e-300):
+                problems.append({"row_sum_row": int(np.argmax(np.abs(rsum))), "row_sum": float(np.abs(rsum).max())})
+            below = np.abs(dE) < CAP
+            sym = csr_array((np.ones(len(rs)), (rs, cs)), shape=(n, n))
+            if np.any(below) and (sym - sym.T).nnz == 0:
+                i, j = rs[below], cs[below]
+                qij = np.asarray(Roff[i, j]).ravel()
+                qji = np.asarray(Roff[j, i]).ravel()
+                with np.errstate(divide="ignore"):
+                    lhs = np.log(V[i]) - E[i] * 1000 / (R_GAS * T) + np.log(qij)
+                    rhs = np.log(V[j]) - E[j] * 1000 / (R_GAS * T) + np.log(qji)
+                bad = ~np.isclose(lhs, rhs, rtol=0, atol=1e-8 * (1 + np.abs(lhs)))
+                if np.any(bad):
+                    k = int(np.argmax(bad))
+                    problems.append({"detailed_balance_pair": [int(i[k]), int(j[k])], "lhs": lhs[k], "rhs": rhs[k]})
+    if OLD.inputs != _digest_inputs(self):
+        problems.append("get_rate_matrix modified its inputs (energies/volumes/surfaces/distances)")
+    if problems:
+        REC.fail(mon, {"problems": problems, "D": D, "T": T, "n": n, "nnz_inputs": len(rs), "form": getattr(self.surfaces, "format", "?")})
+    else:
+        REC.ok(mon)
+    rate_matrix_is_sqra_formula.last = None
+    return True
+
+
 def install():
     from molgri.molecules.transitions import SQRA
     attach.ensure(SQRA, "get_rate_matrix", rate_matrix_is_sqra_formula, snapshots=[("inputs", _digest_inputs)])
@@ -144,7 +207,63 @@ def make_system(rng, nprng, n, pattern=None):
         E[rng.randrange(n)] = E[rng.randrange(n)]  # exactly equal energies
     T = float(rng.choice([50, 100, 273, 300, 310.5, 1000])) if rng.random() < 0.5 else float(nprng.uniform(50, 1000))
     D = float(10 ** nprng.uniform(-2, 2))
-    return dict(n=n, rows=rows, cols=cols, S=S[rows, cols], H=H[rows, cols], V=V, E=E, T=T, D=D, sigma=sigma)
+    # the per-cell arrays in the dtypes files and other tools deliver them in: float32 (single-precision volumes), integers
+    vform = rng.choice(["float64", "float64", "float32", "int64", "int32"])
+    if vform.startswith("int"):
+        V = nprng.integers(1, 60, size=n)
+    V = V.astype(vform)
+    eform = rng.choice(["float64", "float64", "float32", "int64"])
+    E = (np.round(E) if eform == "int64" else E).astype(eform)
+    return dict(n=n, rows=rows, cols=cols, S=S[rows, cols], H=H[rows, cols], V=V, E=E, T=T, D=D, sigma=sigma, vform=vform, eform=eform)
+
+
+def make_large_system(rng, nprng, shape):
+    """rings and periodic lattices whose number of stored pairs is a round number (powers of two and of ten): block-wise or chunked
+    implementations change behaviour exactly there"""
+    if shape[0] == "ring":
+        n = shape[1]
+        i = np.arange(n)
+        rows, cols = np.concatenate([i, i]), np.concatenate([(i + 1) % n, (i - 1) % n])
+    else:
+        dims = shape[1:]
+        n = int(np.prod(dims))
+        idx = np.arange(n).reshape(dims)
+        rows, cols = [], []
+        for ax in range(len(dims)):
+            for sh in (1, -1):
+                rows.append(idx.ravel())
+                cols.append(np.roll(idx, sh, axis=ax).ravel())
+        rows, cols = np.concatenate(rows), np.concatenate(cols)
+    order = np.lexsort((cols, rows))
+    rows, cols = rows[order], cols[order]
+    lo, hi = np.minimum(rows, cols), np.maximum(rows, cols)
+    pair_rng = np.random.default_rng(rng.randrange(10 ** 9))
+    table = 10 ** pair_rng.uniform(-1, 1, size=(2, 4099))
+    S = table[0][(lo * 31 + hi * 17) % 4099]          # symmetric by construction
+    H = table[1][(lo * 13 + hi * 29) % 4099]
+    V = 10 ** nprng.uniform(-1, 1, size=n)
+    E = nprng.normal(0, rng.choice([1.0, 30.0]), size=n)
+    return dict(n=n, rows=rows, cols=cols, S=S, H=H, V=V, E=E, T=float(rng.choice([200, 300, 310.5])), D=float(10 ** nprng.uniform(-1, 1)),
+                sigma=0, vform="float64", eform="float64")
+
+
+LARGE = [("ring", 500), ("ring", 512), ("ring", 2048), ("ring", 5000), ("ring", 8192), ("ring", 32768), ("ring", 50000), ("ring", 65536),
+         ("lattice", 64, 64), ("lattice", 100, 100), ("lattice", 32, 32, 32), ("lattice", 16, 16, 16), ("ring", 8193), ("lattice", 63, 65)]
+
+
+def run_large(SQRA, spec):
+    rng = random.Random(spec["rseed"])
+    nprng = np.random.default_rng(spec["rseed"])
+    for shape in spec["shapes"]:
+        sysd = make_large_system(rng, nprng, tuple(shape))
+        for form in ("csr", "coo"):
+            REC.begin_case({"large": list(shape), "rseed": spec["rseed"], "form": form, "nnz": int(len(sysd["rows"]))}, cls=["round number of stored pairs", f"form={form}"])
+            try:
+                s_, h_ = build(SQRA, sysd, form)
+                SQRA(energies=sysd["E"].copy(), volumes=sysd["V"].copy(), distances=h_, surfaces=s_).get_rate_matrix(sysd["D"], sysd["T"])
+                REC.nontrivial_case()
+            except Exception as e:
+                REC.crashed("C01.call_raised", e)
 
 
 def build(SQRA, sysd, form):
@@ -159,7 +278,8 @@ def build(SQRA, sysd, form):
 def drive(SQRA, sysd, form, cls=None, sample=False):
     case = {k: sysd[k] for k in ("n", "rows", "cols", "S", "H", "V", "E", "T", "D")}
     case["form"] = form
-    REC.begin_case(case, cls=[f"form={form}", f"n={sysd['n']}", f"sigma={sysd['sigma']}"] + (cls or []), sample=sample)
+    case["vform"], case["eform"] = sysd.get("vform", "float64"), sysd.get("eform", "float64")
+    REC.begin_case(case, cls=[f"form={form}", f"n={sysd['n']}", f"sigma={sysd['sigma']}", f"volumes={case['vform']}", f"energies={case['eform']}"] + (cls or []), sample=sample)
     n = sysd["n"]
     try:
         s, h = build(SQRA, sysd, form)
@@ -180,7 +300,7 @@ def drive(SQRA, sysd, form, cls=None, sample=False):
         # metamorphic 1: constant shift of all energies (pairs within 1e-6 of the cap excluded: the capped branch may flip)
         c = float(np.random.default_rng(n).normal(0, 1000))
         s2, h2 = build(SQRA, sysd, form)
-        Q2 = np.asarray(SQRA(energies=E + c, volumes=V.copy(), distances=h2, surfaces=s2).get_rate_matrix(D, T).todense())
+        Q2 = np.asarray(SQRA(energies=np.asarray(E, dtype=float) + c, volumes=V.copy(), distances=h2, surfaces=s2).get_rate_matrix(D, T).todense())
         if not np.any(np.abs(np.abs(dE) - CAP) < 1e-6):
             REC.check("C01.shift_invariance", np.allclose(Q2, Qd, rtol=1e-7, atol=1e-290),
                       lambda: {"shift": c, "max_rel": float(np.max(np.abs(Q2 - Qd) / (np.abs(Qd) + 1e-300)))})
@@ -222,20 +342,27 @@ def run_patterns(SQRA, spec):
 def shards(tier, seed):
     if tier == "quick":
         return [{"kind": "random", "rseed": seed * 1000 + i, "count": 125} for i in range(8)] + \
-               [{"kind": "patterns", "rseed": seed * 1000 + 900, "reps": 1}]
+               [{"kind": "patterns", "rseed": seed * 1000 + 900, "reps": 1}] + \
+               [{"kind": "large", "rseed": seed * 1000 + 950 + i, "shapes": LARGE[i::4]} for i in range(4)]
     return [{"kind": "random", "rseed": seed * 1000 + i, "count": 5000} for i in range(16)] + \
-           [{"kind": "patterns", "rseed": seed * 1000 + 900 + i, "reps": 4} for i in range(4)]
+           [{"kind": "patterns", "rseed": seed * 1000 + 900 + i, "reps": 4} for i in range(4)] + \
+           [{"kind": "large", "rseed": seed * 1000 + 950 + i, "shapes": (LARGE + [("ring", 131072), ("ring", 100000), ("lattice", 256, 256)])[i::8]} for i in range(8)]
 
 
 def run_shard(spec):
     SQRA = install()
-    (run_random if spec["kind"] == "random" else run_patterns)(SQRA, spec)
+    {"random": run_random, "patterns": run_patterns, "large": run_large}[spec["kind"]](SQRA, spec)
 
 
 def replay(case):
     SQRA = install()
+    if "large" in case:
+        return run_large(SQRA, {"rseed": case["rseed"], "shapes": [case["large"]]})   # (re-runs the shapes of that shard up to this one)
     sysd = {k: (np.array(case[k]) if isinstance(case[k], list) else case[k]) for k in ("n", "rows", "cols", "S", "H", "V", "E", "T", "D")}
     sysd["rows"] = sysd["rows"].astype(int)
     sysd["cols"] = sysd["cols"].astype(int)
     sysd["sigma"] = 0
+    sysd["V"] = sysd["V"].astype(case.get("vform", "float64"))
+    sysd["E"] = sysd["E"].astype(case.get("eform", "float64"))
+    sysd["vform"], sysd["eform"] = case.get("vform", "float64"), case.get("eform", "float64")
     drive(SQRA, sysd, case["form"])
